@@ -193,7 +193,13 @@ fn build_input(case: &Value) -> Result<Built, String> {
         let from = r["from"].as_i64().ok_or("ref from")?;
         let to = r["to"].as_i64().ok_or("ref to")?;
         let kind = r["kind"].as_str().ok_or("ref kind")?;
-        let (fu, fid) = *ids.get(&from).ok_or("ref from unknown")?;
+        // from = -u: the reference is held by the root of unit u
+        let (fu, fid) = if from < 0 {
+            let fu = (-from) as usize - 1;
+            (fu, dwarf.units.get(unit_ids[fu]).root())
+        } else {
+            *ids.get(&from).ok_or("ref from unknown")?
+        };
         let (target, same_unit) = if to > 0 {
             let (tu, tid) = *ids.get(&to).ok_or("ref to unknown")?;
             (Target::Entry(unit_ids[tu], tid), tu == fu)
@@ -237,8 +243,16 @@ fn build_input(case: &Value) -> Result<Built, String> {
             dwarf.units.get_mut(unit_ids[fu]).get_mut(fid).set(name, value);
         }
     }
+    let holder = |from: i64, dwarf: &write::Dwarf| -> (usize, UnitEntryId) {
+        if from < 0 {
+            let fu = (-from) as usize - 1;
+            (fu, dwarf.units.get(unit_ids[fu]).root())
+        } else {
+            ids[&from]
+        }
+    };
     for (from, expr) in exprs {
-        let (fu, fid) = ids[&from];
+        let (fu, fid) = holder(from, &dwarf);
         dwarf
             .units
             .get_mut(unit_ids[fu])
@@ -246,7 +260,7 @@ fn build_input(case: &Value) -> Result<Built, String> {
             .set(constants::DW_AT_location, AttributeValue::Exprloc(expr));
     }
     for (from, locs) in lists {
-        let (fu, fid) = ids[&from];
+        let (fu, fid) = holder(from, &dwarf);
         let unit = dwarf.units.get_mut(unit_ids[fu]);
         let lid = unit.locations.add(LocationList(locs));
         unit.get_mut(fid)
